@@ -3,6 +3,7 @@
 checks recorded in its meta.json and refreshes the detection record."""
 import glob, json, os, shutil, subprocess, sys, tempfile
 ids = sys.argv[1:]
+RUN_DIR = os.environ.get("VERIF_RUN_DIR", "/verif")      # where ./check is run from (a snapshot keeps live edits out of the experiment)
 for meta_path in sorted(glob.glob("/verif/seeded/*/meta.json")):
     m = json.load(open(meta_path))
     if ids and m["id"] not in ids:
@@ -19,7 +20,7 @@ for meta_path in sorted(glob.glob("/verif/seeded/*/meta.json")):
             det = {}
             for c in m["detection"]:
                 env = dict(os.environ, PYVC_REPO=T, PYVC_EVIDENCE_DIR=T + "/ev", PYVC_REPLAY_DIR="/tmp/seedreplays")
-                rr = subprocess.run(["./check", c], cwd="/verif", capture_output=True, text=True, env=env)
+                rr = subprocess.run(["./check", c], cwd=RUN_DIR, capture_output=True, text=True, env=env)
                 lines = [l for l in rr.stdout.splitlines() if l.startswith(("VIOLATION", "UNDECIDED", "CHECKER"))][:3]
                 det[c] = dict(exit=rr.returncode, lines=lines)
             m["detection_now"] = det
